@@ -571,15 +571,39 @@ impl C02 {
 			}
 		};
 		let honest = mutation == Mutation::None;
+		// with an honest reply in hand and retry_honest drawn, the user first tries with the wallet's other account
+		// active (standard and invoice flows): the wallet either refuses - the pending transaction must be unharmed,
+		// which the normal attempt below then shows - or it finalizes, and then that result is the one judged
+		let mut early: Option<Result<Slate, String>> = None;
+		if honest && c.retry_honest && (flow == 0 || flow == 4) {
+			let other_acct = (acct + 1) % ACCOUNTS.len();
+			let r: Result<Slate, String> = sim.with_account(w, other_acct, |sim| {
+				if flow == 4 {
+					sim.w(w).foreign().finalize_tx(&reply, false).map_err(|e| e.to_string())
+				} else {
+					sim.w(w).owner.finalize_tx(sim.w(w).m(), &reply).map_err(|e| e.to_string())
+				}
+			});
+			match r {
+				Ok(s3) => {
+					out.class("finalize:other-account-active:ok");
+					early = Some(Ok(s3));
+				}
+				Err(_) => out.class("finalize:other-account-active:refused"),
+			}
+		}
 		let pre_view = snap::view(sim.w(w));
 		// --- finalize
-		let res: Result<Slate, String> = sim.with_account(w, acct, |sim| {
-			if flow == 4 {
-				sim.w(w).foreign().finalize_tx(&reply, false).map_err(|e| e.to_string())
-			} else {
-				sim.w(w).owner.finalize_tx(sim.w(w).m(), &reply).map_err(|e| e.to_string())
-			}
-		});
+		let res: Result<Slate, String> = match early {
+			Some(r) => r,
+			None => sim.with_account(w, acct, |sim| {
+				if flow == 4 {
+					sim.w(w).foreign().finalize_tx(&reply, false).map_err(|e| e.to_string())
+				} else {
+					sim.w(w).owner.finalize_tx(sim.w(w).m(), &reply).map_err(|e| e.to_string())
+				}
+			}),
+		};
 		match res {
 			Ok(s3) => {
 				out.class(if honest { "finalize:honest-ok" } else { "finalize:mutated-ok" });
